@@ -6,7 +6,7 @@ ID = "C16"
 LEVEL = "exploration"
 RULE = ("all globs of <=K tokens over a 26-token alphabet (literals incl. . - + ( $ z-with-dot; ? * ** / [ab] [!a] "
         "{a,b} @(a|b) ?(a) +(a) *(a) \\* \\? and {a,(} @(a|,) {b,a|b}: delimiters of one bracket family as literals inside the other; {b,a/**} @(b|a/*): alternatives that contain a separator and a wildcard) x all well-formed path strings of <=L characters over "
-        "{a,b,z-with-dot,.,-,A,/,$,*} (and, for globs of <=2 tokens, strings of <=5 characters over {a,b,LF,TAB,/}) x ignore-case on/off (quick K=3,L=4; thorough K=4,L=4, K=3,L=5 and K=5,L=3); oracle 1: "
+        "{a,b,z-with-dot,.,-,A,/,$,*} (and, for globs of <=2 tokens, strings of <=5 characters over {a,b,LF,TAB,/,Z-with-dot-above (upper case of a token letter outside ASCII)}, absolute globs (first token '/') there up to 3 tokens) x ignore-case on/off (quick K=3,L=4; thorough K=4,L=4, K=3,L=5 and K=5,L=3); oracle 1: "
         "independent backtracking matcher == Pattern::matches; oracle 2: every ancestor directory of a matching path "
         "passes matches_partially and PathSelector::matches_dir; oracle 3: as --exclude, no non-excluded file lies "
         "below a refused directory unless an ancestor is itself fully matched; two include patterns at once: every pair of globs of <=2 tokens that contain '/' or '**' (selected iff one of them matches; every ancestor of a selected path enterable); command-line cross-check: every glob of <=2 (thorough 3) tokens given to the real binary as --name, --path and --exclude, with and without -i, on a fixed tree of 16 files: the selected set must be the reference matcher's (files below a fully excluded directory: don't care). distinct_nontrivial = number of "
@@ -36,6 +36,11 @@ def cases(tier, seed):
     for k, l in ([(2, 5)] if tier == "quick" else [(3, 5), (2, 6)]):
         n = 16 if k <= 2 else SHARDS
         out += [{"tokens": k, "pathlen": l, "shard": "%d/%d" % (i, n), "alpha": "ctl"} for i in range(n)]
+    # absolute patterns ('/' first) of up to 3 (thorough 4) tokens over the second path alphabet
+    kk = 3 if tier == "quick" else 4
+    out += [{"tokens": kk, "pathlen": 5, "shard": "%d/%d" % (i, 16), "alpha": "ctl", "first": "SLASH"} for i in range(16)]
+    # ... and those whose literal prefix reaches into a directory named with the non-ASCII letter
+    out += [{"tokens": kk + 2, "pathlen": 5, "shard": "%d/%d" % (i, 4), "alpha": "ctl", "first": "SLASH,ż,SLASH"} for i in range(4)]
     # two --path patterns at once
     out += [{"pairs": True, "tokens": 2, "pathlen": 3 if tier == "quick" else 4, "shard": "%d/%d" % (i, 32)} for i in range(32)]
     # command-line cross-check: --name / --path / --exclude x -i on the real binary over a fixed tree
@@ -81,7 +86,8 @@ def evaluate(case):
         viol, summ = U.run_unit(args)
     else:
         viol, summ = U.run_unit(["glob", "--tokens", str(case["tokens"]), "--pathlen", str(case["pathlen"]),
-                                 "--shard", case["shard"]] + (["--alpha", case["alpha"]] if case.get("alpha") else []))
+                                 "--shard", case["shard"]] + (["--alpha", case["alpha"]] if case.get("alpha") else []) +
+                                (["--first", case["first"]] if case.get("first") else []))
     vs = []
     for v in viol:
         ex = v["examples"][0]
